@@ -88,12 +88,16 @@ NodeOf(n, E, salt, kinds, slots, i) ==
          args  |-> SortedSeq(out("args")),
          value |-> SortedSeq(out("value") \cup synth)]
 
-(* kinds and slots are bound by \E over singleton sets so that TLC computes them once *)
-Emitted(id, n, E, salt) ==
-    \E kinds \in {TLCEval(Kinds(n, E, salt))} :
-    \E slots \in {TLCEval([e \in E |-> SlotOf(kinds, salt, e[1], e[2])])} :
-        PrintT(ToJson([id |-> id, fam |-> FAM, n |-> n, salt |-> salt,
-                       nodes |-> [i \in 1 .. n |-> NodeOf(n, E, salt, kinds, slots, i)]]))
+(* kinds and slots are bound over singleton sets so that TLC computes them once.
+   Cases are collected in TLC register 3 and written to GEN_OUT (ndjson) in one go
+   at the end: a PrintT per case costs more than generating the case.            *)
+CaseOf(id, n, E, salt) ==
+    CHOOSE c \in UNION {{[id |-> id, fam |-> FAM, n |-> n, salt |-> salt,
+                          nodes |-> [i \in 1 .. n |-> NodeOf(n, E, salt, kinds, slots, i)]] :
+                            slots \in {TLCEval([e \in E |-> SlotOf(kinds, salt, e[1], e[2])])}} :
+                        kinds \in {TLCEval(Kinds(n, E, salt))}} : TRUE
+
+Emitted(id, n, E, salt) == TLCSet(3, Append(TLCGet(3), CaseOf(id, n, E, salt)))
 
 ---------------------------------------------------------------------------
 (* Exhaustive enumeration by mask                                          *)
@@ -131,9 +135,15 @@ RandEdges(n, salt) ==
    thousand cases).                                                           *)
 Plan == TLCGet(2)
 
-InitX == TLCSet(2, JsonDeserialize(IOEnv.GEN_PLAN)) /\ st = [seg |-> 1, k |-> 0]
+InitX == TLCSet(2, JsonDeserialize(IOEnv.GEN_PLAN)) /\ TLCSet(3, <<>>) /\ st = [seg |-> 1, k |-> 0]
 
-NextX ==
+Flush ==
+    /\ st.seg = Len(Plan) + 1
+    /\ ndJsonSerialize(IOEnv.GEN_OUT, TLCGet(3))
+    /\ PrintT(ToJson([emitted |-> Len(TLCGet(3))]))
+    /\ st' = [seg |-> st.seg + 1, k |-> 0]
+
+Walk ==
     /\ st.seg <= Len(Plan)
     /\ \E sg \in {Plan[st.seg]} :
          IF st.k >= sg.cnt
@@ -152,5 +162,7 @@ NextX ==
                       \E E \in {TLCEval(EdgesOfMask(sg.n, m))} :
                          Emitted(TAG \o ToString(sg.n) \o "-" \o ToString(m), sg.n, E, (GSALT + m) % HP)
               /\ st' = [st EXCEPT !.k = st.k + 1]
+
+NextX == Walk \/ Flush
 
 =============================================================================
